@@ -74,6 +74,82 @@ func acquireThenDefer(fc *FCFG, start Loc, isRelease func(*ast.DeferStmt) bool, 
 	return !bad, why, at
 }
 
+// acquireWrapperResult: the function holding acquire site s does nothing but
+// acquire and report — on the success edges of the acquire the next effectful
+// node is a return whose k-th result is the literal nil, on the failure edges
+// every return's k-th result is a call (an error value) — so "result k is nil"
+// means "the resource is held".  Declared, unexported functions only.
+func acquireWrapperResult(c *Ctx, fc *FCFG, s CallSite, loc Loc, errObj types.Object) (int, bool) {
+	if s.Lit != nil || s.Unit.Decl == nil || s.Unit.Obj.Exported() || errObj == nil {
+		return 0, false
+	}
+	sig := s.Unit.Obj.Type().(*types.Signature)
+	if sig.Results().Len() == 0 {
+		return 0, false
+	}
+	info := fc.Info
+	fail := fc.nilEdges(errObj, false)
+	isFail := func(b *cfg.Block, k int) bool {
+		for _, e := range fail {
+			if e.B == b && e.K == k {
+				return true
+			}
+		}
+		return false
+	}
+	for k := 0; k < sig.Results().Len(); k++ {
+		switch sig.Results().At(k).Type().Underlying().(type) {
+		case *types.Pointer, *types.Interface:
+		default:
+			continue
+		}
+		good, nsucc := true, 0
+		visit := func(l Loc, n ast.Node) searchVerdict {
+			if rs, ok := n.(*ast.ReturnStmt); ok {
+				if len(rs.Results) != sig.Results().Len() || !isNilIdent(info, rs.Results[k]) {
+					good = false
+					return svBad
+				}
+				nsucc++
+				return svStop
+			}
+			if l == loc {
+				return svContinue
+			}
+			if rc := riskyCall(info, n); rc != nil {
+				good = false
+				return svBad
+			}
+			return svContinue
+		}
+		fc.ForwardSearch(loc, visit, func(b *cfg.Block, kk int) bool { return !isFail(b, kk) }, func(*cfg.Block) bool { good = false; return true })
+		if !good || nsucc == 0 {
+			continue
+		}
+		// failure edges: every return reached hands back a call result in position k
+		nfail := 0
+		for _, e := range fail {
+			succ := e.B.Succs[e.K]
+			for _, n := range succ.Nodes {
+				if rs, ok := n.(*ast.ReturnStmt); ok {
+					if len(rs.Results) != sig.Results().Len() {
+						good = false
+						break
+					}
+					if _, isCall := ast.Unparen(rs.Results[k]).(*ast.CallExpr); !isCall {
+						good = false
+					}
+					nfail++
+				}
+			}
+		}
+		if good && nfail > 0 {
+			return k, true
+		}
+	}
+	return 0, false
+}
+
 // litAssignsPath reports whether the function literal contains an assignment
 // to the given access path; it returns the RHS of the (last) such assignment.
 func litAssignsPath(info *types.Info, lit *ast.FuncLit, p AccessPath) (ast.Expr, bool) {
@@ -381,9 +457,74 @@ func init() {
 				ok, why, _ := acquireThenDefer(fc, loc, isRelease, errObj)
 				if ok {
 					obs = append(obs, mkOb(c, "PAIR.frame", s.Unit, construct, s.Call, Proved, "on the err==nil edge the next effectful node is `defer Pop()` on the same stack", true))
-				} else {
-					obs = append(obs, mkOb(c, "PAIR.frame", s.Unit, construct, s.Call, Violated, "pushed frame is not popped on every exit: "+why, true))
+					continue
 				}
+				// an acquire wrapper: `func (env) pushFrame(fun) *LVal { err := PushFID(...); if err != nil
+				// { return env.Error(err) }; return nil }` hands the pushed frame to its caller — it returns
+				// nil exactly when the frame is held — and the pairing is owed at each of ITS call sites
+				if k, wok := acquireWrapperResult(c, fc, s, loc, errObj); wok && rok {
+					wsites, wrefs := c.CallsTo(nil, s.Unit.Obj)
+					good := len(wrefs) == 0 && len(wsites) > 0
+					var sub []Obligation
+					for _, ws := range wsites {
+						wname := ws.Unit.Name()
+						if ord[wname] == nil {
+							ord[wname] = &ordinal{}
+						}
+						wconstruct := ord[wname].next("call PushFID")
+						winfo := ws.Unit.Pkg.TypesInfo
+						wfc := c.cfgOf(ws.Unit, ws.Lit)
+						wloc, found := wfc.Locate(ws.Call)
+						var wres types.Object
+						if found {
+							if as, ok := wfc.Node(wloc).(*ast.AssignStmt); ok && len(as.Rhs) == 1 && ast.Unparen(as.Rhs[0]) == ws.Call && k < len(as.Lhs) {
+								if id, ok := as.Lhs[k].(*ast.Ident); ok {
+									wres = winfo.Defs[id]
+									if wres == nil {
+										wres = winfo.Uses[id]
+									}
+								}
+							}
+						}
+						// the stack the wrapper pushes on, spelled from the caller's side
+						var callerRecv AccessPath
+						crok := false
+						if se, ok := ast.Unparen(ws.Call.Fun).(*ast.SelectorExpr); ok && s.Unit.Decl.Recv != nil && len(s.Unit.Decl.Recv.List) == 1 && len(s.Unit.Decl.Recv.List[0].Names) == 1 {
+							if info.Defs[s.Unit.Decl.Recv.List[0].Names[0]] == recv.Root {
+								if base, ok := PathOf(winfo, se.X); ok {
+									callerRecv = AccessPath{Root: base.Root, Elems: append(append([]string{}, base.Elems...), recv.Elems...)}
+									crok = true
+								}
+							}
+						}
+						if !found || wres == nil || !crok {
+							sub = append(sub, mkOb(c, "PAIR.frame", ws.Unit, wconstruct, ws.Call, Violated, "the result of the frame-pushing helper "+s.Unit.Name()+" is not bound to a variable that is tested (or the stack it pushes on cannot be named here)", true))
+							continue
+						}
+						wRelease := func(d *ast.DeferStmt) bool {
+							if originOf(Callee(winfo, d.Call)) != pop {
+								return false
+							}
+							se, ok := ast.Unparen(d.Call.Fun).(*ast.SelectorExpr)
+							if !ok {
+								return false
+							}
+							q, qok := PathOf(winfo, se.X)
+							return qok && SamePath(callerRecv, q)
+						}
+						if ok2, why2, _ := acquireThenDefer(wfc, wloc, wRelease, wres); ok2 {
+							sub = append(sub, mkOb(c, "PAIR.frame", ws.Unit, wconstruct, ws.Call, Proved, "the frame is pushed by the helper "+s.Unit.Name()+" (nil result = frame held); on that edge the next effectful node is `defer Pop()` on the same stack", true))
+						} else {
+							sub = append(sub, mkOb(c, "PAIR.frame", ws.Unit, wconstruct, ws.Call, Violated, "frame pushed by the helper "+s.Unit.Name()+" is not popped on every exit: "+why2, true))
+						}
+					}
+					if good {
+						obs = append(obs, mkOb(c, "PAIR.frame", s.Unit, construct, s.Call, Proved, fmt.Sprintf("acquire wrapper: returns nil exactly when the frame was pushed and nothing runs in between; the pairing is owed (and checked) at its %d call sites", len(wsites)), true))
+						obs = append(obs, sub...)
+						continue
+					}
+				}
+				obs = append(obs, mkOb(c, "PAIR.frame", s.Unit, construct, s.Call, Violated, "pushed frame is not popped on every exit: "+why, true))
 			}
 			return obs
 		}})
